@@ -28,15 +28,15 @@ func init() {
 }
 
 type osStep struct {
-	Op     string   `json:"op"`
-	Key    []string `json:"key"`
-	Val    int      `json:"val"`
-	Excl   bool     `json:"excl"`
-	Res    string   `json:"res"`
-	Found  bool     `json:"found"`
-	Prefix []string `json:"prefix"`
-	Delim  bool     `json:"delim"`
-	Count  int      `json:"count"`
+	Op     string     `json:"op"`
+	Key    []string   `json:"key"`
+	Val    int        `json:"val"`
+	Excl   bool       `json:"excl"`
+	Res    string     `json:"res"`
+	Found  bool       `json:"found"`
+	Prefix []string   `json:"prefix"`
+	Delim  bool       `json:"delim"`
+	Count  int        `json:"count"`
 	Items  [][]string `json:"items"`
 }
 
